@@ -134,6 +134,14 @@ func (c *Client) handleAcceptVersion(msg protocol.Message) error {
 		)
 	}
 	msgAcceptVersion := msg.(*MsgAcceptVersion)
+	// The peer may only accept a version that we proposed
+	proposedVersionData, ok := c.config.ProtocolVersionMap[msgAcceptVersion.Version]
+	if !ok {
+		return fmt.Errorf(
+			"peer accepted protocol version that was not proposed: %d",
+			msgAcceptVersion.Version,
+		)
+	}
 	protoVersion := protocol.GetProtocolVersion(msgAcceptVersion.Version)
 	if protoVersion.NewVersionDataFromCborFunc == nil {
 		return fmt.Errorf(
@@ -146,6 +154,16 @@ func (c *Client) handleAcceptVersion(msg protocol.Message) error {
 	)
 	if err != nil {
 		return err
+	}
+	// The accepted version data must be for our own network
+	if proposedVersionData != nil && versionData != nil &&
+		versionData.NetworkMagic() != proposedVersionData.NetworkMagic() {
+		return fmt.Errorf(
+			"peer accepted protocol version %d with network magic %d, expected %d",
+			msgAcceptVersion.Version,
+			versionData.NetworkMagic(),
+			proposedVersionData.NetworkMagic(),
+		)
 	}
 	return c.config.FinishedFunc(
 		c.callbackContext,
